@@ -569,9 +569,11 @@ class CFG:
             S = item.optional_vars.id
             uses = [x for st_ in s.body for x in ast.walk(st_) if isinstance(x, ast.Name) and x.id == S]
             calls = [x for st_ in s.body for x in ast.walk(st_) if isinstance(x, ast.Call) and isinstance(x.func, ast.Attribute)
-                     and isinstance(x.func.value, ast.Name) and x.func.value.id == S and x.func.attr == 'callback' and x.args
-                     and not any(isinstance(a, ast.Starred) for a in x.args) and not any(k.arg is None for k in x.keywords)]
-            in_loop = any(isinstance(x, (ast.For, ast.While, ast.AsyncFor)) for st_ in s.body for x in ast.walk(st_))
+                     and isinstance(x.func.value, ast.Name) and x.func.value.id == S and x.func.attr in ('callback', 'enter_context') and x.args
+                     and not any(isinstance(a, ast.Starred) for a in x.args) and not any(k.arg is None for k in x.keywords)
+                     and (x.func.attr == 'callback' or (len(x.args) == 1 and not x.keywords))]
+            in_loop = any(isinstance(x, (ast.For, ast.While, ast.AsyncFor)) and any(y is c_ for y in ast.walk(x) for c_ in calls)
+                          for st_ in s.body for x in ast.walk(st_))      # a registration inside a loop registers many times
             if calls and len(calls) == len(uses) and not in_loop:
                 for k, x in enumerate(calls):
                     flag = f'__exitstack_{s.lineno}_{k}'
@@ -593,16 +595,32 @@ class CFG:
             n = self._node('with_exit', item.context_expr, getattr(s, 'end_lineno', s.lineno),
                            item=item, is_async=is_async, how=how, stmt=s)
             self._withs = oldw
-            for x, flag in reversed(stack_sites):
-                test = ast.copy_location(ast.Name(id=flag, ctx=ast.Load()), x)
-                b = self._node('branch', test, test=test, synthetic=True)
-                self.cur = [(b, 'true')]
-                call = ast.Call(func=x.args[0], args=list(x.args[1:]), keywords=list(x.keywords))
-                ast.copy_location(call, x)
-                call._parent = s  # type: ignore[attr-defined]
-                call._exitstack_callback = True  # type: ignore[attr-defined]
-                self._e_Call(call)
-                self.cur = self.cur + [(b, 'false')]
+            if stack_sites:
+                # registered exits run last-in first-out, each one even if an earlier one raised:
+                #   try: <if flag_n: exit_n>  finally: try: <if flag_n-1: exit_n-1> finally: ...
+                def guarded(x, flag) -> ast.stmt:
+                    test = ast.copy_location(ast.Name(id=flag, ctx=ast.Load()), x)
+                    if x.func.attr == 'enter_context':
+                        recv = ast.copy_location(ast.Name(id=flag.replace('__exitstack_', '__ctx_'), ctx=ast.Load()), x)
+                        call = ast.Call(func=ast.copy_location(ast.Attribute(value=recv, attr='__exit__', ctx=ast.Load()), x), args=[], keywords=[])
+                    else:
+                        call = ast.Call(func=x.args[0], args=list(x.args[1:]), keywords=list(x.keywords))
+                    ast.copy_location(call, x)
+                    call._exitstack_callback = True  # type: ignore[attr-defined]
+                    ex_ = ast.copy_location(ast.Expr(value=call), x)
+                    if_ = ast.copy_location(ast.If(test=test, body=[ex_], orelse=[]), x)
+                    for y, par_ in ((call, ex_), (ex_, if_), (test, if_), (if_, s)):
+                        y._parent = par_  # type: ignore[attr-defined]
+                    return if_
+
+                def nest(k: int) -> List[ast.stmt]:
+                    x, flag = stack_sites[k]
+                    if k == 0:
+                        return [guarded(x, flag)]
+                    t_ = ast.copy_location(ast.Try(body=[guarded(x, flag)], handlers=[], orelse=[], finalbody=nest(k - 1)), x)
+                    t_._parent = s  # type: ignore[attr-defined]
+                    return [t_]
+                self._build_body(nest(len(stack_sites) - 1))
             return n
 
         after: Frontier = []
@@ -721,6 +739,26 @@ class CFG:
             if e.value:
                 return self.cur, []
             return [], self.cur
+        call = e.value if isinstance(e, ast.Await) and isinstance(e.value, ast.Call) else e
+        if isinstance(call, ast.Call):
+            # `if helper(x):` with an inlinable helper: as `t = helper(x); if t:` - the constants the helper returns are
+            # distributed to the synthetic flag at each of its returns, so the branch is decided per path
+            target = self._inline_target(call, awaited=isinstance(e, ast.Await))
+            if target is not None and not any(getattr(c, 'assign_targets', None) for c in self.ctx if c.kind == 'inline'):
+                flag = f'__cond_{getattr(e, "lineno", 0)}_{getattr(e, "col_offset", 0)}'
+                tgt = ast.copy_location(ast.Name(id=flag, ctx=ast.Store()), e)
+                syn = ast.copy_location(ast.Assign(targets=[tgt], value=e), e)
+                syn._parent = getattr(e, '_parent', None)  # type: ignore[attr-defined]
+                self._expr(call.func)
+                for a in call.args:
+                    self._expr(a)
+                for k in call.keywords:
+                    self._expr(k.value)
+                self._inline(call, *target, assign_targets=[tgt], assign_stmt=syn)
+                test = ast.copy_location(ast.Name(id=flag, ctx=ast.Load()), e)
+                test._cond_of = e  # type: ignore[attr-defined]
+                b = self._node('branch', test, test=test, synthetic=True, original_test=e)
+                return [(b, 'true')], [(b, 'false')]
         self._expr(e)
         b = self._node('branch', e, test=e)
         return [(b, 'true')], [(b, 'false')]
@@ -828,6 +866,10 @@ class CFG:
             tc = ast.copy_location(ast.Constant(value=True), e)
             self._node('store_name', ast.copy_location(ast.Name(id=flag, ctx=ast.Store()), e), e.lineno,
                        name=flag, value=tc, stmt=e, synthetic=True)
+            if isinstance(e.func, ast.Attribute) and e.func.attr == 'enter_context':
+                cname = flag.replace('__exitstack_', '__ctx_')
+                self._node('store_name', ast.copy_location(ast.Name(id=cname, ctx=ast.Store()), e), e.lineno,
+                           name=cname, value=e, stmt=e, synthetic=True)
 
     def _cm_target(self, ce: ast.AST):
         """`with helper(args):` where helper is a private/nested generator function decorated with
@@ -916,6 +958,22 @@ class CFG:
         f = e.func
         if any(isinstance(a, ast.Starred) for a in e.args) or any(k.arg is None for k in e.keywords):
             return None
+        if isinstance(f, ast.Name) and self._inlining and _depth < 2 and f.id in self.cur_scope.params:
+            # a parameter of the helper being inlined that the caller bound to one of its own functions
+            # (`self._helper(_load, x)` ... `await loader(item)`): the call is a call of that function, seen from the caller
+            ic = next((c for c in reversed(self.ctx) if c.kind == 'inline'), None)
+            bound = getattr(ic, 'callables', {}).get(f.id) if ic is not None else None
+            host = getattr(ic, 'caller_scope', None)
+            if isinstance(bound, ast.Name) and host is not None:
+                synth = ast.Call(func=bound, args=list(e.args), keywords=list(e.keywords))
+                ast.copy_location(synth, e)
+                synth._parent = getattr(e, '_parent', None)  # type: ignore[attr-defined]
+                saved_scope, saved_res = self.cur_scope, self.res
+                self.cur_scope, self.res = host, Resolver(host)
+                try:
+                    return self._inline_target(synth, awaited, _depth + 1, any_module_helper)
+                finally:
+                    self.cur_scope, self.res = saved_scope, saved_res
         if isinstance(f, ast.Name) and _depth < 2:
             # a single-assignment local bound to functools.partial(helper, a, ...): the call is helper(a, ..., *args)
             from .match import closure_value
@@ -986,7 +1044,7 @@ class CFG:
                 skip_self = False
             else:
                 return None
-        if t is None or t.is_generator or t.is_async != awaited:
+        if t is None or t.is_generator or t.is_async != awaited or t.qualname in self.no_inline:
             return None
         if t.qualname in self._inlining or len(self._inlining) >= 4 or t is self.scope:
             return None
